@@ -379,12 +379,14 @@ func (zns *ZnPMServer) StartWorker() error {
 	}
 
 	// kill child process when parent process exits
+	masterPid := os.Getppid()
 	go func() {
-		// if it is equal to 1 (init process ID),
-		// it indicates that the master process has exited
+		// when the master exits, this process is re-parented: its parent is then no longer
+		// the process that started it. (Comparing with 1 is wrong when the master itself is
+		// process 1, as the entry point of a container is.)
 		const watchInterval = 500 * time.Millisecond
 		for range time.NewTicker(watchInterval).C {
-			if os.Getppid() == 1 {
+			if os.Getppid() != masterPid {
 				os.Exit(1) //nolint:revive // Calling os.Exit is fine here in the prefork
 			}
 		}
